@@ -187,6 +187,10 @@ impl<'a> vstd::std_specs::convert::FromSpecImpl<&'a str> for Error {
 impl<'a> From<&'a str> for Error {
     fn from(e: &'a str) -> Self { Error { kind: ErrKind::Msg } }
 }
+impl Error {
+    // anyhow::Error::msg  [A-anyhow-msg]
+    pub fn msg(m: &str) -> (r: Error) ensures r.kind == ErrKind::Msg { Error { kind: ErrKind::Msg } }
+}
 pub open spec fn is_env_err<T>(r: Result<T>, e: EnvelopeError) -> bool {
     r matches Err(err) && err.kind == ErrKind::Envelope(e)
 }
@@ -498,6 +502,11 @@ pub assume_specification<T, U, F> [std::option::Option::<T>::map_or] (o: std::op
     ensures
         o is None ==> r == default,
         o matches Some(x) ==> call_ensures(f, (x,), r);
+// [A-result-unwrap-or] Result::unwrap_or / unwrap_or_default (the default value itself is not specified)
+pub assume_specification<T, E> [std::result::Result::<T, E>::unwrap_or] (res: std::result::Result<T, E>, default: T) -> (r: T)
+    ensures r == (match res { Ok(v) => v, Err(_) => default });
+pub assume_specification<T: Default, E> [std::result::Result::<T, E>::unwrap_or_default] (res: std::result::Result<T, E>) -> (r: T)
+    ensures res matches Ok(v) ==> r == v;
 // [A-option-as-deref] Option::as_deref (only the Some/None shape is specified)
 pub assume_specification<T> [std::option::Option::<T>::as_deref] (o: &std::option::Option<T>) -> (r: std::option::Option<&<T as std::ops::Deref>::Target>)
     where T: std::ops::Deref,
@@ -1027,6 +1036,40 @@ pub assume_specification<'a> [<String as From<&'a str>>::from] (s: &str) -> (r: 
 // [A-str-to-string] str::to_string / String::as_str / Option::as_deref keep the characters
 #[verifier::external_body]
 pub fn str_to_string(s: &str) -> (r: String) ensures r@ == s@ { unimplemented!() }
+
+// ============================================================================ dcbor::Date (leaf payload)
+#[verifier::external_body]
+#[derive(Debug)]
+pub struct Date { _p: () }
+impl Clone for Date {
+    #[verifier::external_body]
+    fn clone(&self) -> (r: Self) ensures r == *self { unimplemented!() }
+}
+pub uninterp spec fn date_cbor(x: Date) -> CBOR;
+// [A-date-codec-inj] the CBOR determines the date
+pub broadcast axiom fn axiom_date_cbor_inj(a: Date, b: Date)
+    requires #[trigger] date_cbor(a) == #[trigger] date_cbor(b)
+    ensures a == b;
+impl vstd::std_specs::convert::FromSpecImpl<Date> for CBOR {
+    open spec fn obeys_from_spec() -> bool { true }
+    open spec fn from_spec(x: Date) -> Self { date_cbor(x) }
+}
+impl From<Date> for CBOR {
+    #[verifier::external_body]
+    fn from(x: Date) -> Self { unimplemented!() }
+}
+impl vstd::std_specs::convert::TryFromSpecImpl<CBOR> for Date {
+    open spec fn obeys_try_from_spec() -> bool { false }
+    uninterp spec fn try_from_spec(c: CBOR) -> Result<Date, Error>;
+}
+impl TryFrom<CBOR> for Date {
+    type Error = Error;
+    // [A-date-codec] decoding inverts encoding: Ok(d) exactly for the CBOR of a date d
+    #[verifier::external_body]
+    fn try_from(c: CBOR) -> (r: Result<Date, Error>)
+        ensures r matches Ok(d) ==> date_cbor(d) == c, (exists|d: Date| date_cbor(d) == c) ==> r is Ok
+    { unimplemented!() }
+}
 
 // ============================================================================ ARID (bc-components) and tagged-value helpers of dcbor
 #[verifier::external_body]
